@@ -21,7 +21,8 @@ Rewrite(K) == /\ depth < MaxDepth
 Next == \E K \in NRewriteKinds : Rewrite(K)
 Spec == Init /\ [][Next]_vars
 
-Invariance == Observed(NRender(v)) = out0
+\* (after a suffix swap only the strip_suffix fingerprint is required to stay the same)
+Invariance == IF v.x.sfx = <<>> THEN Observed(NRender(v)) = out0 ELSE Observed(NRender(v))[2] = out0[2]
 \* C03 on the reference models: canonicalisation is a pre-step of both
 Hierarchy == LET s == NRender(v) c == RefCanon(s, HTTPS, FALSE, FALSE) IN
              /\ RefNorm(c, DefaultOpts) = RefNorm(EnsureProtocol(Clean(s), HTTPS), DefaultOpts)
